@@ -131,6 +131,14 @@ func c20Vocabulary(w *core.W) {
 		}
 	}
 	// token types
+	// a JSON type without a value kind (the undefined type, a number outside the table) has
+	// no token type, like the undefined schema type
+	for _, jt := range []jnum.Type{jnum.TypeUndefined, jnum.Type(100), jnum.Type(255)} {
+		w.S.Evaluations++
+		if got, want := jt.ToTokenType(), schema.SchemaType(jt.String()).ToTokenType(); got != want || got != schema.SchemaTypeUndefined.ToTokenType() {
+			w.Violate(core.Violation{Clause: "token-types-agree", Input: fmt.Sprintf("json.Type(%d) %q", uint8(jt), jt.String()), Detail: fmt.Sprintf("json type says %q, SchemaType(%q).ToTokenType()=%q, the undefined schema type has %q", got, jt.String(), want, schema.SchemaTypeUndefined.ToTokenType())})
+		}
+	}
 	for _, jt := range jnum.AllTypes {
 		w.S.Evaluations++
 		st := schema.SchemaType(jt.String())
